@@ -213,6 +213,14 @@ func C10(x *Ctx) []Violation {
 			}
 		}
 	}
+	// every identifier of the output resolves in the destination package: a type written without (or with a
+	// wrong) qualifier because moq misjudged where the file will live shows up as an unresolved reference
+	for _, te := range d.TypeErrs {
+		if strings.Contains(te.Msg, "undefined: ") || strings.Contains(te.Msg, "not declared by package") || strings.Contains(te.Msg, "undeclared name") {
+			bad("resolves-in-destination", "in destination package %s (dest=%s, -pkg %q): %s", d.Path, c.Cfg.DestKind, c.Cfg.Pkg, te.Msg)
+			break
+		}
+	}
 	if c.Cfg.DestKind != "implicit" {
 		x.NonTrivial = true
 	}
